@@ -70,6 +70,12 @@ struct Machine {
 	}
 	void dump(std::ostream& o, int r) { o << " R" << r << "="; dumpData(o, R[r]); o << " shape" << r << "=" << shapeStr(R[r].inputShape()); }
 
+	// C12: before a fold constructor runs, the label container gets the shape (k+3) and an input container that
+	// still has the default 0-D shape gets (k+5) (the model driver does the same): a lost shape is always visible
+	void markShapes(int r, long k) {
+		R[r].labelShape() = Shape((std::size_t)(k + 3));
+		if (R[r].inputShape() == Shape()) R[r].inputShape() = Shape((std::size_t)(k + 5));
+	}
 	void dumpCV(std::ostream& o, CVFolds<DS>& f, int r) {
 		R[r] = f.dataset();
 		dump(o, r);
@@ -79,11 +85,13 @@ struct Machine {
 			auto const& ix = f.validationFoldIndices(p);
 			for (std::size_t i = 0; i != ix.size(); ++i) { if (i) o << ","; o << ix[i]; }
 		}
+		o << " lshape=" << shapeStr(f.dataset().labelShape());
 		for (std::size_t p = 0; p != f.size(); ++p) {
 			DS v = f.validation(p), t = f.training(p);
 			o << " val" << p << "="; dumpData(o, v);
 			o << " train" << p << "="; dumpData(o, t);
-			o << " vshape" << p << "=" << shapeStr(v.inputShape());
+			o << " vshape" << p << "=" << shapeStr(v.inputShape()) << " vlshape" << p << "=" << shapeStr(v.labelShape());
+			o << " tshape" << p << "=" << shapeStr(t.inputShape()) << " tlshape" << p << "=" << shapeStr(t.labelShape());
 		}
 	}
 
@@ -140,16 +148,16 @@ struct Machine {
 			DS t = toDataset(sub2, a[2]); R[q] = t; dump(o, q);
 			o << " vidx="; for (std::size_t i = 0; i != sub2.size(); ++i) { if (i) o << ","; o << sub2.index(i); } }
 		else if (cmd == "F") { int r = a[0]; long f = a[1]; R[r] = transformInputs(R[r], [f](I const& x) { return Enc<I>::shift(x, f); }); dump(o, r); }
-		else if (cmd == "CS") { int r = a[0]; R[r].makeIndependent(); auto f = createCVSameSize(R[r], a[1], a[2]); dumpCV(o, f, r); }
-		else if (cmd == "CI") { int r = a[0]; std::vector<std::size_t> s(a.begin() + 3, a.end()); auto f = createCVIndexed(R[r], a[1], s, a[2]); dumpCV(o, f, r); }
-		else if (cmd == "CF") { int r = a[0]; std::size_t n = (a.size() - 3) / 2; RecreationIndices ri;
+		else if (cmd == "CS") { int r = a[0]; markShapes(r, a[1]); R[r].makeIndependent(); auto f = createCVSameSize(R[r], a[1], a[2]); dumpCV(o, f, r); }
+		else if (cmd == "CI") { int r = a[0]; markShapes(r, a[1]); std::vector<std::size_t> s(a.begin() + 3, a.end()); auto f = createCVIndexed(R[r], a[1], s, a[2]); dumpCV(o, f, r); }
+		else if (cmd == "CF") { int r = a[0]; markShapes(r, a[1]); std::size_t n = (a.size() - 3) / 2; RecreationIndices ri;
 			ri.first.assign(a.begin() + 3, a.begin() + 3 + n); ri.second.assign(a.begin() + 3 + n, a.end());
 			auto f = createCVFullyIndexed(R[r], a[1], ri, a[2]); dumpCV(o, f, r); }
-		else if (cmd == "CB") { int r = a[0]; RecreationIndices ri; auto f = createCVSameSizeBalanced(R[r], a[1], a[2], &ri); dumpCV(o, f, r);
+		else if (cmd == "CB") { int r = a[0]; markShapes(r, a[1]); RecreationIndices ri; auto f = createCVSameSizeBalanced(R[r], a[1], a[2], &ri); dumpCV(o, f, r);
 			o << " rfirst="; for (std::size_t i = 0; i != ri.first.size(); ++i) { if (i) o << ","; o << ri.first[i]; }
 			o << " rsecond="; for (std::size_t i = 0; i != ri.second.size(); ++i) { if (i) o << ","; o << ri.second[i]; } }
-		else if (cmd == "CT") { int r = a[0]; auto f = createCVBatch(R[r], a[1]); dumpCV(o, f, r); }
-		else if (cmd == "CR") { int r = a[0]; R[r].makeIndependent(); auto f = createCVIID(R[r], a[1], a[2]); dumpCV(o, f, r); }
+		else if (cmd == "CT") { int r = a[0]; markShapes(r, a[1]); auto f = createCVBatch(R[r], a[1]); dumpCV(o, f, r); }
+		else if (cmd == "CR") { int r = a[0]; markShapes(r, a[1]); R[r].makeIndependent(); auto f = createCVIID(R[r], a[1], a[2]); dumpCV(o, f, r); }
 		else o << " ?";
 	}
 };
